@@ -220,6 +220,14 @@ def space_list(thorough, seed):
     # assemble - refine - assemble on the same object (caches must follow the refinement)
     add(1, 2, 4, [{0: [[0], [1]]}, {1: [[0], [1]]}, {0: [[3]]}], False, 'inf', [], interleave=True)
     add(2, 1, 3, [{0: [[0, 0], [0, 1], [1, 0], [1, 1]]}, {1: [[0, 0], [0, 1], [1, 0], [1, 1]]}, {1: [[2, 2]]}], False, 'inf', [], interleave=True)
+    # ... where the last step activates fine functions WITHOUT deactivating any coarse one (marked patch smaller than a coarse support)
+    add(1, 1, 5, [{0: [[0], [1]]}, {1: [[0], [1]]}, {0: [[3]]}], False, 'inf', [], interleave=True)
+    add(1, 2, 7, [{0: [[0], [1], [2]]}, {1: [[0], [1], [2]]}, {0: [[4], [5]]}], True, 'inf', [], interleave=True)
+    add(2, 1, 3, [{0: [[0, 0]]}, {1: [[0, 0]]}, {0: [[2, 2]]}], False, 'inf', [(0, 0)], interleave=True)
+    # ... and the newly activated fine functions sort BEFORE existing ones of their level (positions in the canonical numbering shift)
+    add(1, 1, 5, [{0: [[3], [4]]}, {1: [[8], [9]]}, {0: [[1]]}], False, 'inf', [], interleave=True)
+    add(1, 2, 7, [{0: [[4], [5], [6]]}, {1: [[11], [12], [13]]}, {0: [[1], [2]]}], True, 'inf', [], interleave=True)
+    add(2, 1, 3, [{0: [[2, 2]]}, {1: [[5, 5]]}, {0: [[0, 0]]}], False, 'inf', [], interleave=True)
     add(2, 2, 3, [{0: [[0, 0], [0, 1], [0, 2], [1, 0], [1, 1], [1, 2], [2, 0], [2, 1], [2, 2]]}, {1: [[0, 0], [0, 1], [1, 0], [1, 1]]}, {1: [[3, 3], [3, 4], [4, 3], [4, 4]]}], True, 'inf', [], interleave=True)
     if thorough:
         # exhaustive: <= 2 calls on 1D meshes with <= 3 coarse cells, 1 call on the 2x2 mesh; plus a seeded sample of longer histories
